@@ -364,6 +364,34 @@ end Ledger.Sql
 namespace Ledger.Sql
 open Ledger.Spec
 
+theorem find_seqsSet_other (full other : String) (v : Int) (h : other ≠ full) : ∀ (seqs : List Seq),
+    (seqsSet full v seqs).find? (·.name == other) = seqs.find? (·.name == other) := by
+  intro seqs
+  induction seqs with
+  | nil => rfl
+  | cons x xs ih =>
+    simp only [seqsSet, List.map_cons, List.find?_cons]
+    by_cases hx : x.name = full
+    · have h1 : (x.name == full) = true := by simpa using hx
+      have h2 : (x.name == other) = false := by simpa [hx] using fun e => h e.symm
+      simp only [h1, if_true, h2]
+      exact ih
+    · have h1 : (x.name == full) = false := by simpa using hx
+      simp only [h1, Bool.false_eq_true, if_false]
+      cases (x.name == other)
+      · exact ih
+      · rfl
+
+theorem find_seqsRun_other (full other : String) (h : other ≠ full) : ∀ (ms : List Spec.MoveRow) (v : Int) (seqs : List Seq),
+    (seqsRun full v seqs ms).find? (·.name == other) = seqs.find? (·.name == other) := by
+  intro ms
+  induction ms with
+  | nil => intro _ _; rfl
+  | cons m ms ih =>
+    intro v seqs
+    simp only [seqsRun]
+    rw [ih, find_seqsSet_other full other v h]
+
 /-- **`InsertMoves` refines `Spec.insertMoves`.** For ANY state satisfying the storage invariants of `moves` (`MvStmtState`), ANY
     non-empty batch of moves of ledger `ln` (literals `pm`, sequence numbers from the bucket's sequence) and ANY ordering `T` of the
     moves of ledger `ln` the transaction sees, the generated statement — run with its BEFORE / AFTER INSERT ROW triggers — returns the
@@ -387,7 +415,8 @@ theorem insertMoves_refines (p : Nat) (env : Env) (b ln : String) (trigs : List 
       (∀ l, l ≠ ln → (ledgerMoves l (mvAbs (latestView s.w s.xid) rows')).Perm (ledgerMoves l (mvAbs (latestView s.w s.xid) rows))) ∧
       MvInv (latestView s.w s.xid) (sq.next + pm.length) rows' ∧ Fresh s.xid (s.nextCid + 4 * pm.length) rows' ∧
       (∀ r ∈ rows', r.rid < nr + pm.length) ∧
-      seqs'.find? (·.name == mvSeqFull b) = some { sq with last := sq.next + pm.length - 1, called := true } := by
+      seqs'.find? (·.name == mvSeqFull b) = some { sq with last := sq.next + pm.length - 1, called := true } ∧
+      (∀ other, other ≠ mvSeqFull b → seqs'.find? (·.name == other) = s.w.seqs.find? (·.name == other)) := by
   have hexec := exec_runStmt_insertMoves p env b ln trigs B1 B2 trB A1 A2 trA item wher dflt_ fB setE whereU fA nr rows sq s hst pm hne
     hlits hsf hrange hnc
   have hall := hst.inv.all
@@ -420,7 +449,7 @@ theorem insertMoves_refines (p : Nat) (env : Env) (b ln : String) (trigs : List 
   refine ⟨drainRows (latestView s.w s.xid) s.xid ln (s.nextCid + 2 * pm.length)
       (insRows s.xid s.cid ln nr rows (mvAbs (latestView s.w s.xid) rows) (pm.map (·.2)))
       (insNew ln (mvAbs (latestView s.w s.xid) rows) (pm.map (·.2))),
-    seqsRun (mvSeqFull b) sq.next s.w.seqs (pm.map (·.2)), ?_, ?_, ?_, hinv3, ?_, ?_, ?_⟩
+    seqsRun (mvSeqFull b) sq.next s.w.seqs (pm.map (·.2)), ?_, ?_, ?_, hinv3, ?_, ?_, ?_, ?_⟩
   · rw [hexec, hnew]
   · have h1 : (ledgerMoves ln (mvAbs (latestView s.w s.xid) (drainRows (latestView s.w s.xid) s.xid ln (s.nextCid + 2 * pm.length)
         (insRows s.xid s.cid ln nr rows (mvAbs (latestView s.w s.xid) rows) (pm.map (·.2)))
@@ -452,5 +481,7 @@ theorem insertMoves_refines (p : Nat) (env : Env) (b ln : String) (trigs : List 
       exact hne (List.eq_nil_of_length_eq_zero this))
     rw [hlenM] at this
     exact this
+  · intro other ho
+    exact find_seqsRun_other (mvSeqFull b) other ho _ _ _
 
 end Ledger.Sql
